@@ -466,7 +466,7 @@ pub fn check_sane(info: &mut CaseInfo, p: &Program, ctx: usize) -> CheckResult {
     Ok(())
 }
 
-fn program_json(p: &Program, ctx: usize) -> Value {
+pub fn program_json(p: &Program, ctx: usize) -> Value {
     let seps: Vec<Value> = p
         .seps
         .iter()
